@@ -10,7 +10,7 @@
    keyword, the IMP keywords carry the values xs (C12/ProofsCells.v). *)
 From Coq Require Import List NArith ZArith Bool String Ascii Reals.
 From T4V Require Import Base.Str Base.Scalar C12.Text C12.Model C12.Spec
-     C12.ProofsExpand C12.ProofsCells C12.ProofsDeck.
+     C12.ProofsExpand C12.ProofsText C12.ProofsCells C12.ProofsDeck.
 Import ListNotations.
 Open Scope string_scope.
 Open Scope list_scope.
@@ -68,6 +68,17 @@ Theorem C12_keywords_importance :
     exists k, parse_kw Sc P toks O kws0 = Ok k /\ k_imp k = max_list Sc xs.
 Proof. exact @keywords_importance. Qed.
 Print Assumptions C12_keywords_importance.
+
+(* the option normalisation (blanks around ':' removed, lower(), '(' ')' '='
+   turned into blanks, split()): for option text written as words (non-empty,
+   no blank, parenthesis, '=' or upper-case letter, no ':' at either end)
+   separated by ONE blank or ONE '=' sign, the tokens are the words, in order *)
+Theorem C12_option_tokens_words :
+  forall (ws : list (string * ascii)) (last : string),
+    Forall (fun ws => word (fst ws) /\ sep_ok (snd ws)) ws -> word last ->
+    option_tokens (join ws last) = map fst ws ++ [last].
+Proof. exact option_tokens_join. Qed.
+Print Assumptions C12_option_tokens_words.
 
 (* cell-card value if there is an IMP keyword, otherwise the data-card entry at
    the cell's rank *)
@@ -152,6 +163,23 @@ Theorem C12_cell_card_max_zero :
     (In key skipped <-> all_zero xs).
 Proof. exact cell_card_zero_iff. Qed.
 Print Assumptions C12_cell_card_max_zero.
+
+(* the same on the text of the card: options written as words separated by one
+   blank or one '=' sign, made of IMP keywords each followed by a number
+   (scan_imps collects them) and of words no branch of the keyword dispatch
+   reacts to *)
+Theorem C12_plain_card_max_zero :
+  forall (P : prims R) (imp_cards : list (string * list string)) (cards : list card)
+         (lats : list (Z * list (Z * Z))) (cells : list (Z * cell (T:=R))) (skipped : list Z)
+         (r : nat) (key : Z) (mat geom : string) (ws : list (string * ascii)) (last : string)
+         (xs : list R),
+    parse_cells RS P imp_cards cards lats = Ok (cells, skipped) ->
+    nth_error (dict_of Z.eqb cards) r = Some (key, (Explicit mat geom, join ws last)) ->
+    Forall (fun ws => word (fst ws) /\ sep_ok (snd ws)) ws -> word last ->
+    scan_imps P (map fst ws ++ [last]) = Some xs -> xs <> [] -> nonneg xs ->
+    (In key skipped <-> all_zero xs).
+Proof. exact plain_card_zero_iff. Qed.
+Print Assumptions C12_plain_card_max_zero.
 
 (* any card, explicit or LIKE n BUT (chains included): with o the options the
    LIKE chain resolves to (base options first, BUT options appended), the cell
@@ -291,4 +319,20 @@ Proof.
   split; [reflexivity|].
   change (option_tokens "imp:n=1 imp:n=0") with ["imp:n"; "1"; "imp:n"; "0"].
   apply oi_imp; [reflexivity|reflexivity|]. apply oi_imp; [reflexivity|reflexivity|apply oi_nil].
+Qed.
+
+(* the hypotheses of C12_option_tokens_words on "imp:n=0 vol 3.5" *)
+Example C12_example_words :
+  let ws := [("imp:n", "="%char); ("0", " "%char); ("vol", " "%char)] in
+  Forall (fun ws => word (fst ws) /\ sep_ok (snd ws)) ws /\ word "3.5" /\
+  join ws "3.5" = "imp:n=0 vol 3.5" /\
+  option_tokens "imp:n=0 vol 3.5" = ["imp:n"; "0"; "vol"; "3.5"].
+Proof.
+  cbv zeta.
+  assert (Forall (fun ws => word (fst ws) /\ sep_ok (snd ws))
+                 [("imp:n", "="%char); ("0", " "%char); ("vol", " "%char)]) as Hw
+    by (repeat constructor; cbn; auto).
+  assert (word "3.5") as Hl by (repeat split; reflexivity).
+  split; [exact Hw|]. split; [exact Hl|]. split; [reflexivity|].
+  exact (C12_option_tokens_words _ _ Hw Hl).
 Qed.
